@@ -11,7 +11,7 @@ import sys
 
 V = "/verif"
 CROSS = {  # extra checks worth trying when the own check misses (same code, other property)
-    "C08": ["C09"], "C09": ["C08"], "C06": ["C07"], "C07": ["C06"], "C11": ["C12"], "C12": ["C11"], "C04": ["C05"], "C05": ["C04"],
+    "C08": ["C09"], "C09": ["C08"], "C06": ["C07"], "C07": ["C06"], "C11": ["C12"], "C12": ["C11", "C02"], "C04": ["C05"], "C05": ["C04"],
     "C15": ["C01", "C10", "C04", "C17", "C18", "C09", "C06"], "C01": ["C11", "C19"], "C16": [], "C02": ["C20"],
 }
 
